@@ -6,16 +6,16 @@ CONSTANTS
   SelectMode = "det"
   LegacyBreak = FALSE
   MetricDefs <- TreeMetrics
-  SlotDefs <- TreeSlots
+  SlotDefs <- TreeSlots5
   Sizes <- Sz123
   WWs = {1}
   MWs = {1}
   NWs = {1, 2}
-  GWs = {1, 2}
+  GWs = {1}
   Buds = {0}
   NSAs = {FALSE}
   OptSets <- OptsQuota
-  Budgets = {0, 1, 3, 6, 11}
+  Budgets = {1, 3, 6, 11}
 VIEW MCView
 INVARIANTS TypeOK AtMostOnce ExactlyOnce Unbiased KeptRowsFactorGE1 NoSampleAgentKept SameFactorInLeaf FitsNothingSampled FairShare FixedWithinBudget FairShareRemaining FitIsJustified Monotone KeptWithinBudget QuotaWithinTotal QuotaProportional QuotaFitIsSize QuotaWithinTotalAnyRounding ExportDone
 CHECK_DEADLOCK FALSE
